@@ -41,7 +41,7 @@ fn forge(ctx: &mut Ctx, fc: &mut FinalCtx, thorough_bit: Option<usize>) -> (Vec<
     let key = fc.honest_key.to_vec();
     let honest_plain = increment_le(&key);
     let v = fc.cssp_version;
-    let family = if thorough_bit.is_some() { 1 } else { ctx.choose("forgery_family", 12) };
+    let family = if thorough_bit.is_some() { 1 } else { ctx.choose("forgery_family", 14) };
     match family {
         0 => {
             let t = fc.seal.seal(&honest_plain);
@@ -113,6 +113,22 @@ fn forge(ctx: &mut Ctx, fc: &mut FinalCtx, thorough_bit: Option<usize>) -> (Vec<
             let at = ctx.choose("truncate_at", r.len() as u64) as usize;
             r.truncate(at);
             (vec![r], Expect::Reject, "truncated".into())
+        }
+        12 => {
+            // a strict prefix of key+1 (down to nothing), correctly sealed: numerically another value
+            let keep = ctx.choose("prefix_len", honest_plain.len() as u64) as usize;
+            let t = fc.seal.seal(&honest_plain[..keep]);
+            (vec![reply(v, t)], Expect::Reject, format!("sealed-prefix-of-key+1({})", if keep == 0 { "empty" } else { "partial" }))
+        }
+        13 => {
+            // a keyless server: a bare signature block without payload / the honest token cut down to its signature
+            let which = ctx.choose("sig_only_kind", 3);
+            let t: Vec<u8> = match which {
+                0 => { let mut b = vec![1, 0, 0, 0]; b.extend(ctx.bytes("sig_only", 8)); b.extend_from_slice(&[0, 0, 0, 0]); b }
+                1 => { let mut h = fc.seal.seal(&honest_plain); h.truncate(16); h }
+                _ => { let mut h = fc.seal.seal(&honest_plain); let n = 16 + ctx.choose("cut_token", (h.len() - 16) as u64) as usize; h.truncate(n); h }
+            };
+            (vec![reply(v, t)], Expect::Reject, format!("signature-block-{}", if which == 2 { "plus-truncated-payload" } else { "only" }))
         }
         7 => {
             // wrong sequence number: still sealed and signed under the session keys -> the statement does not decide
